@@ -640,12 +640,15 @@ Section cmd_rel.
       destruct (apply_component_change pr e0 t v) as [pr1 ch]; cbn in H.
       destruct from; [destruct ch|]; auto. eapply cs_trans; [exact H|cs_go].
     - destruct (t_u2e pr !! c), (t_u2e pr !! p); try apply cs_refl.
-      destruct (_ || _); [apply cs_refl|].
+      destruct (_ || _); [apply cs_refl|]. cbv zeta.
       destruct (parent_differs pr e0 e1).
-      + pose proof (cs_set_parent_twice pr e0 e1). destruct (p_panic _); auto.
-        eapply cs_trans; eauto. cs_go.
+      + assert (Hsp : cmd_step pr (set_parent_twice pr e0 e1 <| t_ptok ::= <[c := p]> |>)).
+        { eapply cs_trans; [apply cs_set_parent_twice|]. apply cs_core; core2_tac. }
+        destruct (p_panic _); [exact Hsp|].
+        eapply cs_trans; [exact Hsp|]. cs_go.
       + destruct (p_panic pr); [apply cs_refl|cs_go].
-    - destruct (_ || _); [apply cs_refl|]. destruct (parent_differs _ _ _); [apply cs_set_parent_twice|apply cs_refl].
+    - destruct (_ || _); [apply cs_refl|]. destruct (parent_differs _ _ _); [|apply cs_refl].
+      eapply cs_trans; [apply cs_set_parent_twice|]. apply cs_core; core2_tac.
     - cbv zeta. destruct from; cs_go.
     - cs_go.
     - pose proof (cs_build_full_sync pr) as H. destruct (build_full_sync pr) as [pr1 ms]; cbn in H.
